@@ -143,8 +143,13 @@ def tasks(tier, seed):
         if not quick or j == 0:
             add("full:long:%s" % sp[j % len(sp)], {"body": "long_full", "tz_text": sp[j % len(sp)], "off": o}, 300)
     step = 8 if quick else 1
+    # quick tier: besides the rotation, three names of every length (patterns and pre-filters are length-sensitive)
+    by_len = {}
+    for n, o in abbrs:
+        by_len.setdefault(len(n), []).append(n)
+    forced = {g[(seed * 3 + 5 * j) % len(g)] for g in by_len.values() for j in range(min(3, len(g)))} if quick else set()
     for i, (n, o) in enumerate(abbrs):
-        if (i + seed) % step and n == n.upper() and n.isascii():
+        if (i + seed) % step and n == n.upper() and n.isascii() and n not in forced:
             continue   # quick tier: a seed-rotated eighth, plus every name that is not plain upper-case ASCII
         add("abbr:%s" % n, {"body": "iso_time", "tz_text": n, "off": o})
         if not quick or i % 3 == 0:
